@@ -46,15 +46,24 @@ static int helper_xp(int w1, int *seen_entry, int *seen_after)
     return helper(xp_cb, w1, seen_entry, seen_after);
 }
 #define cerrno errno
+int counter = 5;
+static int xp_unattached(int);
+static int helper_xpu(int w1, int *seen_entry, int *seen_after)
+{
+    return helper(xp_unattached, w1, seen_entry, seen_after);
+}
 """
 CDEF = """
 int seterr(int);
 int helper(int (*cb)(int), int, int *, int *);
 int helper_xp(int, int *, int *);
 extern "Python" int xp_cb(int);
+extern "Python" int xp_unattached(int);      /* never given a Python function */
+int helper_xpu(int, int *, int *);
 extern int cerrno;
+extern int counter;
 """
-CDEF_ABI = "int seterr(int); int helper(int (*cb)(int), int, int *, int *);"
+CDEF_ABI = "int seterr(int); int helper(int (*cb)(int), int, int *, int *); extern int counter;"
 
 _W = {}
 
@@ -100,6 +109,10 @@ def alphabet(tid):
         ("CB", "callback", b + 6, None), ("CB", "callback", b + 7, b + 8),
         ("CB", "extern", b + 9, b + 10), ("CB", "abi-callback", b + 11, b + 12),
         ("V",),
+        # an extern "Python" function that no Python code was attached to (cffi reports it and returns 0)
+        ("CBU", b + 13),
+        # plain global variables of dlopen()ed libraries: read / write / addressof must not disturb errno
+        ("GV", "rd", "ool"), ("GV", "wr", "ool"), ("GV", "addr", "ool"), ("GV", "rd", "abi"), ("GV", "rd", "api"),
     ]
 
 
@@ -121,6 +134,11 @@ def model(prog, start=0):
             py = after
         elif op[0] == "V":
             obs.append(("V", py))
+        elif op[0] == "CBU":
+            obs.append(("CBU", py, op[1]))      # errno seen at entry; errno after the (empty) extern call
+            py = op[1]
+        elif op[0] == "GV":
+            obs.append(("GV", 5 if op[1] == "rd" else 0))
     obs.append(("END", py))
     return obs
 
@@ -178,6 +196,21 @@ def run_one(progs, prefix):
                 out.append(("CB", e[0], op[2] if ok_inside else ("inside", tuple(inside)), a[0]))
             elif k == "V":
                 out.append(("V", lib.cerrno))
+            elif k == "CBU":
+                e, a = ffi.new("int *"), ffi.new("int *")
+                lib.helper_xpu(op[1], e, a)
+                out.append(("CBU", e[0], a[0]))
+            elif k == "GV":
+                L = {"ool": W["lib3"], "abi": W["lib2"], "api": lib}[op[2]]
+                F = {"ool": W["ffi3"], "abi": W["ffi2"], "api": ffi}[op[2]]
+                if op[1] == "rd":
+                    out.append(("GV", L.counter))
+                elif op[1] == "wr":
+                    L.counter = 5
+                    out.append(("GV", 0))
+                else:
+                    F.addressof(L, "counter")
+                    out.append(("GV", 0))
         s.point(("end",))
         out.append(("END", ffi.errno))
     for i in range(len(progs)):
@@ -281,12 +314,23 @@ def work_block(block):
 def run(ctx):
     setup()
     install_extern()
+    sys.stderr.flush()
+    _devnull = os.open(os.devnull, os.O_WRONLY)
+    _saved2 = os.dup(2)
+    os.dup2(_devnull, 2)           # cffi reports every call of the unattached extern "Python" function on fd 2
+    try:
+        return _run(ctx)
+    finally:
+        os.dup2(_saved2, 2)
+
+
+def _run(ctx):
     _BOUND[0] = 2
     # sequential sanity: every single op alone agrees with the model from a known start
     items = []
     if ctx.quick:
-        A0 = [0, 1, 2, 7, 10]
-        A1 = [0, 1, 3, 8, 4]
+        A0 = [0, 1, 2, 7, 10, 11, 12]
+        A1 = [1, 3, 8, 13, 14, 15]
         p0 = programs(0, 2, alpha_idx=A0)
         p1 = programs(1, 2, alpha_idx=A1)
         pairs = [(a, b) for a in p0 for b in p1 if len(a) + len(b) <= 3]
